@@ -10,7 +10,7 @@
 (* prints the guards that failed at the furthest matched position, which   *)
 (* bin/check maps to property ids (Blame).                                 *)
 (***************************************************************************)
-EXTENDS Props, Json, IOUtils
+EXTENDS Props, Blame, Json, IOUtils
 
 VARIABLE l          \* position of the next event to be explained
 tvars == <<vars, l>>
@@ -44,7 +44,11 @@ T_Pick == /\ IsEvent("pick")
 T_Block == /\ IsEvent("block")
            /\ LET t == E.task IN
               /\ G("blk.cur", cur = t)
-              /\ G("blk.live", yl \/ ~CanStep(t))      \* the real task is suspended: the spec's must be too
+              \* the real task is suspended: the spec's must be too
+              /\ IF yl \/ ~CanStep(t) THEN TRUE
+                 ELSE IF t \in Client THEN G("blk." \o cli[t].stage, FALSE)
+                 ELSE IF act[t].pc = "idle" THEN G(IF act[t].mq = <<>> THEN "blk.loop.closed" ELSE "blk.loop.deq", FALSE)
+                 ELSE G("blk.loop", FALSE)
               /\ cur' = None /\ yl' = FALSE /\ UNCHANGED sys
 
 T_Exit == /\ IsEvent("exit")
@@ -84,20 +88,20 @@ T_OpBegin == /\ IsEvent("op_begin")
                 /\ G("ob.handle", o.h = "none" \/ o.h \in DOMAIN hnd)
                 /\ RunIssue(c, o)
 
-LastMatches(L) == /\ G("oe.res", L.res = E.res)
-                  /\ G("oe.val", L.res \notin {"ok", "some"} \/ (L.pos = E.pos /\ L.inst = E.inst))
-                  /\ G("oe.actor", L.a = E.a)
+LastMatches(op, L) == /\ G("oe.res." \o op, L.res = E.res)
+                      /\ G("oe.val." \o op, L.res \notin {"ok", "some"} \/ (L.pos = E.pos /\ L.inst = E.inst))
+                      /\ G("oe.actor", L.a = E.a)
 T_OpEnd == /\ IsEvent("op_end")
            /\ LET c == E.task IN
               /\ G("oe.cur", cur = c /\ ~yl)
               /\ G("oe.n", cli[c].n = E.n)
               /\ IF cli[c].stage = "idle"
-                 THEN LastMatches(cli[c].last) /\ UNCHANGED vars
+                 THEN LastMatches(cli[c].op, cli[c].last) /\ UNCHANGED vars
                  ELSE /\ ~(cli[c].stage = "flush" /\ cli[c].op = "call")     \* routing: that step is silent
-                      /\ G("oe.ready", ClientContEnabled(c))
+                      /\ G("oe.ready." \o cli[c].op, ClientContEnabled(c))
                       /\ RunCont(c)
                       /\ G("oe.done", cli'[c].stage = "idle")
-                      /\ LastMatches(cli'[c].last)
+                      /\ LastMatches(cli[c].op, cli'[c].last)
 
 T_Cb == /\ IsEvent("cb")
         /\ LET a == E.task IN
@@ -188,8 +192,12 @@ TNext == \/ T_Reset \/ T_Pick \/ T_Block \/ T_Exit \/ T_Yield \/ T_Advance \/ T_
 TSpec == TInit /\ [][TNext]_tvars
 
 Track == TLCSet(3, IF l > TLCGet(3) THEN l ELSE TLCGet(3))
+
+\* guard id -> properties whose statement the guard encodes (DESIGN 4.6); ids not listed blame nothing
+FailedAt(p) == {g[2] : g \in {x \in TLCGet(2) : x[1] = p}}
+BlameOf(g) == IF g \in DOMAIN Blame THEN Blame[g] ELSE {}
 Accepted ==
   \/ TLCGet(3) = Len(Rec) + 1
-  \/ Print(<<"REJECT", TLCGet(3), ToJson(Rec[TLCGet(3)]), ToJson({g[2] : g \in {x \in TLCGet(2) : x[1] = TLCGet(3)}})>>, FALSE)
-TraceStats == PrintT(<<"TRACE-LEN", Len(Rec)>>)
+  \/ Print(<<"REJECT", TLCGet(3), ToJson(Rec[TLCGet(3)]), ToJson(FailedAt(TLCGet(3))),
+             ToJson(UNION {BlameOf(g) : g \in FailedAt(TLCGet(3))})>>, FALSE)
 =============================================================================
